@@ -6,21 +6,30 @@ import vlib
 MUTANTS = [("MC_FairQueue_m1", "insert() does not wake the receiver", "NoLostWakeup"),
            ("MC_FairQueue_m2", "served stream re-queued with its stale ticket", "FairBoundTight"),
            ("MC_FairQueue_m3", "stream not put back after Pending", "NoStreamLost"),
-           ("MC_FairQueue_m4", "receiver waker stored only when the slot is empty", "NoLostWakeup")]
+           ("MC_FairQueue_m4", "receiver waker stored only when the slot is empty", "NoLostWakeup"),
+           ("MC_FairQueue_m5", "every wake-up queues a ready event, also for a stream that is already queued (the code before fix 8512c0f)", "FairBoundTight"),
+           ("MC_FairQueue_m6", "poll_next never gives control back while streams keep waking themselves (the code before fix 634cc7b)", "YieldBound")]
 REACH = ["MC_FairQueue_r1", "MC_FairQueue_r2", "MC_FairQueue_r3"]
 
 
 def model_checks(chk, which=("safety", "mutants", "reach")):
     tier = chk.tier
     if "safety" in which:
-        r = vlib.tlc("FairQueue", "MC_FairQueue_q.cfg", chk.wd, timeout=600)
-        chk.model_must_hold(r, "FairQueue 2 peers x 2 items, stale wake, remove, cancel (exhaustive)")
+        r = vlib.tlc("FairQueue", "MC_FairQueue_q.cfg", chk.wd, timeout=900, workers=12)
+        chk.model_must_hold(r, "FairQueue 2 peers x 2 items, late/duplicate wake-ups of old waker clones, budget exhaustion (self-waking streams), cancel (exhaustive)", disabled=("Remove",))
+        r = vlib.tlc("FairQueue", "MC_FairQueue_qr.cfg", chk.wd, timeout=900)
+        chk.model_must_hold(r, "FairQueue 2 peers x 2 items, remove, cancel (exhaustive)", disabled=("StaleFire", "Exhaust"))
         if tier == "thorough":
-            r = vlib.tlc("FairQueue", "MC_FairQueue_t.cfg", chk.wd, timeout=3000, heap="24g")
-            chk.model_must_hold(r, "FairQueue 3 peers x 2 items (exhaustive)")
+            for cfg, what in (("MC_FairQueue_q2", "2 peers x 2 items, 2 stale wake-ups, exhaustion, remove"), ("MC_FairQueue_t", "3 peers x 2 items"),
+                              ("MC_FairQueue_t2", "3 peers x 1 item, stale wake-up, exhaustion")):
+                r = vlib.tlc("FairQueue", cfg + ".cfg", chk.wd, timeout=3000, heap="24g", workers=14)
+                chk.model_must_hold(r, "FairQueue %s (exhaustive)" % what, disabled=() if cfg == "MC_FairQueue_q2" else ("Remove", "StaleFire", "Exhaust") if cfg == "MC_FairQueue_t" else ("Remove",))
     if "liveness" in which:
-        r = vlib.tlc("FairQueue", "MC_FairQueue_live.cfg", chk.wd, timeout=1200, coverage=False)
-        chk.model_must_hold(r, "FairQueue liveness: readable => eventually delivered (WF receiver, WF wakers)")
+        r = vlib.tlc("FairQueue", "MC_FairQueue_live.cfg", chk.wd, timeout=1200, coverage=False, workers=12)
+        chk.model_must_hold(r, "FairQueue liveness: readable => eventually delivered, with budget exhaustion (WF receiver, WF wakers)")
+        if tier == "thorough":
+            r = vlib.tlc("FairQueue", "MC_FairQueue_live2.cfg", chk.wd, timeout=3000, coverage=False, workers=12, heap="16g")
+            chk.model_must_hold(r, "FairQueue liveness with a stale wake-up and budget exhaustion")
     if "mutants" in which:
         for cfg, what, inv in MUTANTS:
             r = vlib.tlc("FairQueue", cfg + ".cfg", chk.wd, timeout=300, coverage=False)
@@ -98,6 +107,55 @@ def starvation_scripts(rng, n):
     return out
 
 
+def hostile_env_scripts(rng, n):
+    """Model-free scripts with a transport that uses its wakers the way real ones may: (a) it wakes OLD clones again
+    (tokio does when readiness arrives between registering the waker and re-checking: the stream answers Ready and the
+    registered waker still fires later), (b) every stream answers Pending after waking its own waker until the receiver
+    task gets control back (a runtime's cooperative task budget; immediate self-wake is what tokio does for a future
+    polled outside a scheduler context, e.g. the main future of block_on)."""
+    out = []
+    for i in range(n):
+        nk = rng.randint(2, 4)
+        keys = ["h%d" % j for j in range(1, nk + 1)]
+        s = [{"a": "Insert", "k": k} for k in keys]
+        busy, quiet = keys[0], keys[1:]
+        if i % 2 == 0:
+            # (a) duplicate wake-ups for a continuously busy peer, then the others become ready
+            burst = rng.randint(120, 260)
+            for k in keys:
+                s += [{"a": "Nop"}, {"a": "Poll"}]                 # every stream is polled once and registers a waker
+            for _ in range(burst):
+                s.append({"a": "Produce", "k": busy})
+            s.append({"a": "Wake", "k": busy})
+            for _ in range(rng.randint(15, 50)):
+                s += [{"a": "Nop"}, {"a": "Poll"}, {"a": "Nop"}, {"a": "StaleWake", "k": busy, "i": rng.randint(0, 3)}]
+            m = rng.randint(4, 8)
+            for q in quiet:
+                for _ in range(m):
+                    s.append({"a": "Produce", "k": q})
+                s.append({"a": "Wake", "k": q})
+            for _ in range(burst + m * len(quiet) + 10):
+                s += [{"a": "Nop"}, {"a": "Poll"}]
+        else:
+            # (b) budget exhaustion at a random point of a busy period, also inside the unlocked window
+            for k in keys:
+                for _ in range(rng.randint(2, 6)):
+                    s.append({"a": "Produce", "k": k})
+            for _ in range(rng.randint(0, 5)):
+                s += [{"a": "Nop"}, {"a": "Poll"}]
+            if rng.random() < 0.5:
+                s += [{"a": "Nop"}, {"a": "Exhaust"}, {"a": "Poll"}]          # exhausted when the poll starts
+            else:
+                s += [{"a": "Nop"}, {"a": "Poll"}, {"a": "Exhaust"}]          # exhausted by the first stream polled (inside the window)
+            for _ in range(40):
+                s += [{"a": "Nop"}, {"a": "Poll"}]
+                if rng.random() < 0.1:
+                    s += [{"a": "Nop"}, {"a": "Exhaust"}]
+        s.append({"a": "Nop"})
+        out.append(s)
+    return out
+
+
 def random_scripts(rng, n, maxlen=120):
     """Model-free random walks with window activity (ops right after a Poll run inside the polled stream)."""
     out = []
@@ -152,7 +210,8 @@ def run_fq(chk, prefixes, nsim, nstarve, nrand, depth=300):
     all_stats = {}
     for label, scripts in (("model", gen_behaviours(chk, nsim, depth, chk.seed)),
                            ("starve", starvation_scripts(rng, nstarve)),
-                           ("random", random_scripts(rng, nrand))):
+                           ("random", random_scripts(rng, nrand)),
+                           ("hostile-env", hostile_env_scripts(rng, max(20, nstarve // 2)))):
         viols, st = replay_and_validate(chk, scripts, label)
         all_stats[label] = {k: v for k, v in st.items() if k != "out"}
         for sc in scripts:
